@@ -564,8 +564,16 @@ def twice_cases(rng, n):
 
 def geotherm_node_cases(rng, n_dirs, per_dir):
     out = []
-    for _ in range(n_dirs):
+    for kdir in range(n_dirs + 1):
         dsc, variables = gen_dir(rng, min_n=4)
+        if kdir == n_dirs:
+            # one FINE temperature grid (DT = 5 K over 3000+ K: 600+ rows, what a production run with DT_SAMPLE = DT writes): every
+            # tabulated (T, P) is a node of the table, however many rows it has
+            dsc["grid"].update({"NT": int(600 + rng.integers(0, 40)), "DT": 5.0, "T_MIN": 0.0, "NTV": int(rng.integers(4, 7))})
+            dsc["components"] = dsc["components"][:1]
+            dsc["keywords"] = ["cij_s", "bm_V", "bm_VRH", "v", "v_p"]
+            dsc.pop("with_tv", None)
+            variables = [f"c{dsc['components'][0]}s", "bm_V", "bm_VRH"]
         dsc["grid"]["DT"] = round_step(dsc["grid"]["DT"]); dsc["grid"]["DELTA_P"] = round_step(dsc["grid"]["DELTA_P"])
         d = tempfile.mkdtemp(prefix="c19g_")
         try:
